@@ -2,6 +2,7 @@ package mc
 
 import (
 	"fmt"
+	"runtime/debug"
 	"sync/atomic"
 )
 
@@ -413,16 +414,23 @@ func tallFamily(c *Ctx, prop string) {
 			if (or.OnlyAfter == "undo" || runs[i].undoOnly) && hist[len(hist)-1].Kind != "undo" {
 				continue
 			}
-			x := NewExec(prop, func() Case { return mkCase("hist", histPayload{Fam: *fam, Hist: hist}) })
-			is, md, ok := fam.run(x, hist)
-			if ok {
-				atomic.AddInt64(&evals, fam.observe(x, is, md, true))
-			}
-			x.CheckHeld()
-			c.Col.Add(x.Viol...)
-			for _, n := range x.Notes {
-				c.Col.Note(n)
-			}
+			func() {
+				defer func() {
+					if r := recover(); r != nil {
+						c.Col.Add(panicViolation(prop, r, debug.Stack(), mkCase("hist", histPayload{Fam: *fam, Hist: hist}), histStr(hist)))
+					}
+				}()
+				x := NewExec(prop, func() Case { return mkCase("hist", histPayload{Fam: *fam, Hist: hist}) })
+				is, md, ok := fam.run(x, hist)
+				if ok {
+					atomic.AddInt64(&evals, fam.observe(x, is, md, true))
+				}
+				x.CheckHeld()
+				c.Col.Add(x.Viol...)
+				for _, n := range x.Notes {
+					c.Col.Note(n)
+				}
+			}()
 			atomic.AddInt64(&done, 1)
 		}
 		if i%997 == 0 {
